@@ -40,6 +40,8 @@ type Ax struct{ Amt, Scope string }
 // amount picks the message amount: a small fixed one, exactly `whole` (the position's whole available balance), or one unit more.
 func (ax Ax) amount(small int64, whole sdk.Int) sdk.Int {
 	switch ax.Amt {
+	case "zero":
+		return sdk.ZeroInt()
 	case "whole":
 		if whole.IsPositive() {
 			return whole
